@@ -32,7 +32,7 @@ PAR = 8
 BOUND = 25.0
 
 ACTS = ["idle", "blocked", "busy", "sleep", "swallow_kbi", "sigint_ignored", "daemon_threads", "flood", "big_transfer", "endmarker_raises",
-        "callback_service", "inbound_flood", "thread_exhaustion", "unread_backlog", "two_senders_full_pipe"]
+        "callback_service", "inbound_flood", "thread_exhaustion", "unread_backlog", "two_senders_full_pipe", "python_sigint_handler", "python_sigint_ign"]
 GEVENT_ACTS = ["idle", "blocked", "gevent_sleep", "gevent_busy", "gevent_timesleep", "two_senders_full_pipe"]
 REMOVALS = ["sigkill", "sigterm", "os_exit", "normal_exit", "close_connection", "during_bootstrap", "exit_after_fork"]
 TOPOS = ["popen", "python", "via", "socket"] + [t for t in ("py3.10", "py3.11", "py3.13") if __import__("glob").glob(f"/root/.pyenv/versions/{t[2:]}.*/bin/python")]
@@ -59,7 +59,7 @@ def gen_case(rng, idx):
         model = "thread"  # (gevent is installed for the initiating side's interpreter only)
     act = rng.choice(GEVENT_ACTS if model == "gevent" else ACTS)
     removal = rng.choice(REMOVALS)
-    if removal == "exit_after_fork" and act not in ("idle", "blocked", "busy", "sleep", "swallow_kbi", "sigint_ignored", "daemon_threads", "gevent_sleep"):
+    if removal == "exit_after_fork" and act not in ("idle", "blocked", "busy", "sleep", "swallow_kbi", "sigint_ignored", "daemon_threads", "gevent_sleep", "python_sigint_handler", "python_sigint_ign"):
         # the helper keeps the pipes open: a worker that is writing into a pipe nobody reads any more (its receiver thread
         # included, when it has to refuse a request) is connected to a living, silent peer - that is not the loss of the
         # initiator the property speaks of
@@ -307,6 +307,8 @@ def run_shard(spec):
         cases[2].update(gen_fixed("popen", "thread", "swallow_kbi", "sigkill", stderr="pipe_reader_gone"))
         cases[4].update(gen_fixed("popen", "thread", "callback_service", "sigkill"))
     extra_fixed = []
+    if spec["shard"] == 4:
+        extra_fixed += [gen_fixed("popen", "thread", "python_sigint_handler", "sigkill"), gen_fixed("python", "main_thread_only", "python_sigint_ign", "os_exit")]
     if spec["shard"] == 2:
         extra_fixed += [gen_fixed("popen", "gevent", "two_senders_full_pipe", "sigkill"), gen_fixed("popen", "thread", "two_senders_full_pipe", "sigkill"),
                         gen_fixed("popen", "thread", "idle", "exit_after_fork"), gen_fixed("python", "main_thread_only", "sleep", "exit_after_fork")]
